@@ -24,7 +24,13 @@ pub struct Sc {
     pub templates: Vec<String>,
     /// tests evaluated after the action on the same entry
     pub after: Vec<String>,
+    /// a second action right after the first, of the other or the same flavour:
+    /// (is -execdir, its single template argument); it runs iff the first was true
+    #[serde(default)]
+    pub second: Option<(bool, String)>,
 }
+
+const CMD2: &str = "CMD2";
 
 const CMD: &str = "CMD";
 const OK: &[u8] = b"\x01OK";
@@ -44,6 +50,12 @@ impl Sc {
         a.push(CMD.into());
         a.extend(self.templates.iter().cloned());
         a.push(";".into());
+        if let Some((dir2, t2)) = &self.second {
+            a.push(if *dir2 { "-execdir".into() } else { "-exec".into() });
+            a.push(CMD2.into());
+            a.push(t2.clone());
+            a.push(";".into());
+        }
         a.extend(self.after.iter().cloned());
         a.push("-printf".into());
         a.push("\\001OK\\0".into());
@@ -189,7 +201,7 @@ impl Property for C09 {
         }
         let tests = if mutate { vec![] } else { gen_stable_tests(rng) };
         let mut find = FindScenario::new(spec, vec![]);
-        let npaths = find.tree.nodes.len() * starts.len() + 2;
+        let npaths = (find.tree.nodes.len() * starts.len() + 2) * 2;
         find.outcomes = if rng.chance(3, 4) { gen_outcomes(rng, npaths, true) } else { vec![] };
         // exit codes 126..254 are ordinary failures for find
         for o in find.outcomes.iter_mut() {
@@ -236,6 +248,7 @@ impl Property for C09 {
             execdir: rng.chance(2, 5),
             templates,
             after,
+            second: if rng.chance(1, 4) { Some((rng.chance(1, 2), rng.pick(&["{}", "{}", "x{}y", "{}{}"]).to_string())) } else { None },
         };
         sc.render();
         sc
@@ -290,6 +303,9 @@ impl Property for C09 {
         }
         if sc.templates.iter().all(|t| !t.contains("{}")) {
             rep.probe("no_placeholder_at_all");
+        }
+        if let Some((dir2, _)) = &sc.second {
+            rep.probe(if *dir2 != sc.execdir { "second_action_of_the_other_flavour" } else { "second_action_of_the_same_flavour" });
         }
         if let RunStatus::Panic(msg) = &obs.status {
             rep.fail("C09.panic", format!("argv {:?}: find panicked: {msg}", sc.find.argv));
@@ -407,8 +423,46 @@ impl Property for C09 {
                     }
                     // truth value: the OK marker follows iff the command exited 0
                     // (tests placed between the action and the marker may veto it)
-                    let ok_follows = matches!(items.get(i + 2), Some(Item::Rec(r)) if r.as_slice() == OK);
-                    let exit0 = matches!(outcome, Outcome::Exit(0));
+                    let mut next = i + 2;
+                    let mut exit0 = matches!(outcome, Outcome::Exit(0));
+                    if let (Some((dir2, t2)), true) = (&sc.second, exit0) {
+                        // the second action runs now, with its own flavour of path and directory
+                        let Some(Item::Spawn(argv2, cwd2, outcome2)) = items.get(next) else {
+                            rep.fail("C09.second-action-not-run", format!("{}: the first action was true for [{}] but the second command was not run", describe(), crate::sys::show(&path)));
+                            return;
+                        };
+                        let (p2, d2): (Vec<u8>, Option<String>) = if *dir2 {
+                            let (d, n) = split_for_execdir_bytes(&path);
+                            (n, Some(d))
+                        } else {
+                            (path.clone(), None)
+                        };
+                        let want2 = vec![CMD2.as_bytes().to_vec(), substitute(t2, &p2)];
+                        let got_dir = cwd2.as_ref().map(|c| norm_dir(&String::from_utf8_lossy(c)));
+                        let dir_ok = match (&d2, &got_dir) {
+                            (None, None) => true,
+                            (Some(d), g) => g.clone().unwrap_or_default() == *d,
+                            (None, Some(_)) => false,
+                        };
+                        if *argv2 != want2 || !dir_ok {
+                            rep.fail(
+                                "C09.second-action-argv-or-directory",
+                                format!(
+                                    "{}: second action for [{}]: expected argv {:?} in {:?}, got {:?} in {:?}",
+                                    describe(),
+                                    crate::sys::show(&path),
+                                    want2.iter().map(|a| crate::sys::show(a)).collect::<Vec<_>>(),
+                                    d2,
+                                    argv2.iter().map(|a| crate::sys::show(a)).collect::<Vec<_>>(),
+                                    got_dir
+                                ),
+                            );
+                            return;
+                        }
+                        exit0 = matches!(outcome2, Outcome::Exit(0));
+                        next += 1;
+                    }
+                    let ok_follows = matches!(items.get(next), Some(Item::Rec(r)) if r.as_slice() == OK);
                     if sc.after.is_empty() {
                         if ok_follows != exit0 {
                             rep.fail(
@@ -421,7 +475,7 @@ impl Property for C09 {
                         rep.fail("C09.true-although-command-failed", format!("{}: command for [{}] ended with {:?} but evaluation went on", describe(), crate::sys::show(&path), outcome));
                         return;
                     }
-                    i += 2;
+                    i = next;
                     if ok_follows {
                         i += 1;
                     }
@@ -537,6 +591,11 @@ impl Property for C09 {
         if !sc.after.is_empty() {
             let mut s = sc.clone();
             s.after.clear();
+            push(s);
+        }
+        if sc.second.is_some() {
+            let mut s = sc.clone();
+            s.second = None;
             push(s);
         }
         if sc.depth {
